@@ -11,3 +11,7 @@ import Crd.Props.C16
 #print axioms Crd.Props.C16.dangling_rejected
 #print axioms Crd.Props.C16.cyclic_rejected
 #print axioms Crd.Props.C16.resolve_inherits
+#print axioms Crd.Props.C16.accepted_is_built
+#print axioms Crd.Props.C16.last_definition_wins
+#print axioms Crd.Props.C16.user_takes_over
+#print axioms Crd.Props.C16.builtin_name_untouched
